@@ -69,10 +69,12 @@ SeqSet(s) == {s[i] : i \in DOMAIN s}
 \*       cbs      - <<ep,sid>> -> low-threshold callbacks seen since ep's previous snapshot
 \*       ackDue   - ep -> virtual time by which ep owes a SACK for data it was handed, -1 if none
 \*       incn     - <<ep,sid>> -> incarnation counter (open/accept events)
+\*       wfail    - <<ep,sid>> of streams on which a write failed since ep's previous snapshot (the bytes of the
+\*                  rejected write were visible in the buffered amount only while the call was blocked)
 MiscInit == [probe |-> [e \in EP |-> -1], thr |-> <<>>, cbs |-> <<>>, ackDue |-> [e \in EP |-> -1],
              incn |-> <<>>, fwdMax |-> [e \in EP |-> -1],
              nack |-> [line |-> 0, to |-> -1, set |-> {}, hb |-> FALSE], teardown |-> FALSE, calls |-> <<>>, inj |-> <<>>, dead |-> [e \in EP |-> FALSE], abortRx |-> [e \in EP |-> FALSE], fuzzed |-> FALSE, abortSeen |-> [e \in EP |-> FALSE], shutAt |-> <<>>, shutRet |-> <<>>, closedInc |-> <<>>, wdl |-> <<>>, rdl |-> <<>>, reqs |-> <<>>, gen |-> <<>>, performed |-> {}, genAtRx |-> <<>>, rsGen |-> <<>>,
-             pendReads |-> <<>>, hbCalls |-> <<>>, hbSeen |-> {}, txn |-> [e \in EP |-> 0]]
+             pendReads |-> <<>>, hbCalls |-> <<>>, hbSeen |-> {}, txn |-> [e \in EP |-> 0], wfail |-> {}]
 
 InitVars ==
   /\ scen = "" /\ cfg = [none |-> TRUE]
@@ -135,7 +137,8 @@ TrWCall ==
 
 TrWrite ==
   /\ IsEv("write")
-  /\ msg' = (E.id :> (E @@ [inc |-> msg[E.id].inc, callLine |-> msg[E.id].callLine, snapSt |-> msg[E.id].snapSt])) @@ msg
+  /\ msg' = (E.id :> (E @@ [inc |-> msg[E.id].inc, callLine |-> msg[E.id].callLine, snapSt |-> msg[E.id].snapSt, retLine |-> l])) @@ msg
+  /\ misc' = IF E.ok THEN misc ELSE [misc EXCEPT !.wfail = @ \cup {<<E.ep, E.sid>>}]
   /\ LET k == <<E.ep, E.sid>> IN
        order' = IF ~E.ok /\ E.len > 0
                 THEN (k :> SelectSeq(Get(order, k, <<>>), LAMBDA x : x # E.id)) @@ order
@@ -144,9 +147,11 @@ TrWrite ==
               \cup (IF E.ok /\ sn[E.ep] # NoSnap /\ sn[E.ep].st # "established" /\ msg[E.id].snapSt # "established"
                     THEN {V("C18_WriteNotEstablishedRejected", <<E.ep, E.sid, E.id, sn[E.ep].st>>)} ELSE {})
               \* blocking-write mode: the call returns only after everything written before it was handed over
-              \* for transmission (every earlier accepted message has been put on the wire at least once)
+              \* for transmission (every message whose write had RETURNED successfully before this call was made
+              \* has been put on the wire at least once; calls still blocked concurrently are not "previous")
               \cup (IF E.ok /\ Cfg(E.ep).bw
-                    THEN LET earlier == {id \in DOMAIN msg : msg[id].ep = E.ep /\ msg[id].ok /\ msg[id].len > 0 /\ msg[id].callLine < msg[E.id].callLine}
+                    THEN LET earlier == {id \in DOMAIN msg : msg[id].ep = E.ep /\ msg[id].ok /\ msg[id].len > 0 /\ msg[id].ev = "write"
+                                                               /\ msg[id].retLine < msg[E.id].callLine}
                              unsent == {id \in earlier : ~\E t \in DOMAIN ch[E.ep] : ch[E.ep][t].id = id /\ ch[E.ep][t].e}
                          IN IF unsent # {} THEN {V("C18_BlockingWriteWaits", <<E.ep, E.id, CHOOSE id \in unsent : TRUE>>)} ELSE {}
                     ELSE {})
@@ -160,7 +165,7 @@ TrWrite ==
                     THEN {V("C18_FailedWriteOnWire", <<E.ep, E.sid, E.id, E.err>>)} ELSE {})
   /\ step' = (IF "async" \in DOMAIN E THEN step ELSE E)
   /\ l' = l + 1
-  /\ UNCHANGED <<scen, cfg, reads, ch, hi, pkt, rcvd, skipTo, ackCum, ackGap, arw, outst, lastSack, sackEv, sn, newData, misc, rs, acc>>
+  /\ UNCHANGED <<scen, cfg, reads, ch, hi, pkt, rcvd, skipTo, ackCum, ackGap, arw, outst, lastSack, sackEv, sn, newData, rs, acc>>
 
 (***************************************************************************)
 (* API: read                                                               *)
@@ -591,7 +596,9 @@ WrittenBytes(e, sid) == MapThenSumSet(LAMBDA id : msg[id].len,
 ReleasedBytes(e, sid) == MapThenSumSet(LAMBDA t : ch[e][t].len,
                           {t \in DOMAIN ch[e] : ch[e][t].sid = sid /\ (t <= ackCum[e] \/ t \in ackGap[e])
                                                 /\ ch[e][t].id \in DOMAIN msg /\ msg[ch[e][t].id].inc = IncOf(e, sid)})
-AllWritten(e) == MapThenSumSet(LAMBDA id : msg[id].len, {id \in DOMAIN msg : msg[id].ep = e /\ msg[id].ok})
+\* association level: "pending plus in-flight user bytes" -- a blocking write that has not returned yet has put
+\* nothing into the pending queue (its bytes are counted by the stream only), so only returned writes count
+AllWritten(e) == MapThenSumSet(LAMBDA id : msg[id].len, {id \in DOMAIN msg : msg[id].ep = e /\ msg[id].ok /\ msg[id].ev = "write"})
 AllReleased(e) == MapThenSumSet(LAMBDA t : ch[e][t].len, {t \in DOMAIN ch[e] : t <= ackCum[e] \/ t \in ackGap[e]})
 
 SnapViol(s, R) ==
@@ -649,6 +656,7 @@ SnapViol(s, R) ==
     \cup {V("C15_Callback", <<e, x.sid, Get(misc.cbs, <<e, x.sid>>, 0), x.ba>>) :
              x \in {y \in strs : y.known /\ <<e, y.sid>> \in DOMAIN misc.thr /\ prev # NoSnap
                       /\ ~(step.ev = "api" /\ step.op \in {"open", "accept"})
+                      /\ <<e, y.sid>> \notin misc.wfail
                       /\ LET py == {z \in {prev.streams[i] : i \in DOMAIN prev.streams} : z.sid = y.sid /\ z.known}
                              th == misc.thr[<<e, y.sid>>]
                              crossed == py # {} /\ (CHOOSE z \in py : TRUE).ba > th /\ y.ba <= th
@@ -718,7 +726,7 @@ SnapStep(s, changed) ==
   /\ acc' = [acc EXCEPT ![e] = @ \cup x.seen]
   /\ newData' = [newData EXCEPT ![e] = <<>>]
   /\ sackEv' = [sackEv EXCEPT ![e] = <<>>]
-  /\ misc' = [misc EXCEPT !.cbs = [k \in DOMAIN @ |-> IF k[1] = e THEN 0 ELSE @[k]], !.txn[e] = 0, !.abortSeen[e] = FALSE, !.rsGen = x.G,
+  /\ misc' = [misc EXCEPT !.cbs = [k \in DOMAIN @ |-> IF k[1] = e THEN 0 ELSE @[k]], !.txn[e] = 0, !.abortSeen[e] = FALSE, !.rsGen = x.G, !.wfail = {k \in @ : k[1] # e},
                            !.pendReads = SelectSeq(@, LAMBDA r : r.ep # e)]
   /\ viol' = viol \cup SnapViol(s, x.R) \cup AckLate(s.t) \cup CkViol(e, changed) \cup AdvViol(e, changed) \cup x.rv
 
